@@ -17,4 +17,25 @@ func init() {
 		Exhaustive: true,
 		Quick:      []string{"C03.cascade", "C03.flag", "C03.const", "C03.write", "C01.tab.number", "C01.num.loop"},
 	})
+	regProp(&PropInfo{ID: "C02",
+		Decides:    "Tape construction attaches every value to the right parent (return constants of scope pushes vs. close dispatch, from the extracted automaton), every walker steps by the entry's true size (size table extracted from calcNext for all 14 tags and both modes; Advance/AdvanceInto/AdvanceIter/NextElementBytes apply it), element iterators are restricted to exactly the element, tag→type table covers every value tag.",
+		NotDecided: []string{"stage-1 index production (SIMD)", "unescaping (C04)", "numeric values (C03)", "duplicate-key behaviour of Go maps in Map/Interface"},
+		Assumptions: []string{"integer conversions do not wrap for in-range tapes"},
+		Exhaustive: true,
+		Quick:      []string{"C02.retaddr", "C02.sizeclass", "C02.restrict", "C02.map", "C17.pair"},
+	})
+	regProp(&PropInfo{ID: "C14",
+		Decides:    "Reader/writer agreement on deleted ranges: on a NOP word every reader moves the cursor by exactly the payload from the NOP's own index and then re-examines the landing word; every writer (DeleteElems, SetNull, Deserialize) stores payload end−index with end one past the filled range, over exactly key+value / value.",
+		NotDecided: []string{"that callbacks see each member once (follows from the cursor rules plus C12.alt)", "content of surviving members"},
+		Assumptions: []string{"README: NOP payload = number of tape entries to skip forward from the NOP word"},
+		Exhaustive: true,
+		Quick:      []string{"C14.readers", "C14.writers", "C02.sizeclass"},
+	})
+	regProp(&PropInfo{ID: "C17",
+		Decides:    "Every transition of the stage-2 machine writes opening/closing words and annotations as documented (payload 0 at open; closing word holds the start index; opening word gets closing index+1; roots +1), proper nesting by kind, bit layout constants, NOP runs written by Deserialize/DeleteElems/SetNull land one past the run.",
+		NotDecided: []string{"that string offsets/lengths are in range for every input (depends on the string kernels)"},
+		Assumptions: []string{},
+		Exhaustive: true,
+		Quick:      []string{"C17.pair", "C17.masks", "C14.writers", "C02.map"},
+	})
 }
